@@ -31,6 +31,11 @@ class Module:
                         for a, b in zip(t.elts, n.value.elts):
                             if isinstance(a, ast.Name):
                                 self.assigns.setdefault(a.id, []).append(b)
+                    elif isinstance(t, ast.Tuple) and all(isinstance(a, ast.Name) for a in t.elts):
+                        # A, B, C = (f(x) for x in ...) / = range(3): each name is element i of the unpacked value
+                        for i, a in enumerate(t.elts):
+                            sub = ast.Subscript(value=ast.Call(func=ast.Name(id='tuple', ctx=ast.Load()), args=[n.value], keywords=[]), slice=ast.Constant(value=i), ctx=ast.Load())
+                            self.assigns.setdefault(a.id, []).append(ast.copy_location(ast.fix_missing_locations(sub), n))
             elif isinstance(n, ast.FunctionDef):
                 self.funcs[n.name] = n
             elif isinstance(n, ast.ClassDef):
@@ -113,6 +118,12 @@ class NotLiteral(Exception):
 
 class _FoldedNone:
     """A folded call that legitimately returned None (hooks use None for 'not handled')."""
+def _next(it, *default):
+    """next() for the evaluator: generator expressions are evaluated eagerly into tuples, so a tuple / list stands for a fresh iterator."""
+    if isinstance(it, (tuple, list)):
+        it = iter(it)
+    return next(it, *default)
+
 FOLDED_NONE = _FoldedNone()
 
 _BIN = {ast.Add: lambda a, b: a + b, ast.Sub: lambda a, b: a - b, ast.Mult: lambda a, b: a * b,
@@ -132,7 +143,7 @@ class Lit:
     PURE = {'range': range, 'len': len, 'tuple': tuple, 'list': list, 'dict': dict, 'set': set, 'frozenset': frozenset,
             'min': min, 'max': max, 'sum': sum, 'abs': abs, 'int': int, 'str': str, 'bool': bool, 'chr': chr, 'ord': ord,
             'bytes': bytes, 'bytearray': bytearray, 'sorted': sorted, 'enumerate': enumerate, 'zip': zip, 'any': any, 'all': all,
-            'reversed': reversed, 'divmod': divmod, 'round': round, 'next': next, 'iter': iter, 'repr': repr, 'hex': hex, 'callable': callable, 'id': id, 'bin': bin, 'map': map, 'filter': filter,
+            'reversed': reversed, 'divmod': divmod, 'round': round, 'next': _next, 'iter': iter, 'repr': repr, 'hex': hex, 'callable': callable, 'id': id, 'bin': bin, 'map': map, 'filter': filter,
             'reduce': __import__('functools').reduce, 'xor': __import__('operator').xor, 'or_': __import__('operator').or_, 'and_': __import__('operator').and_, 'add': __import__('operator').add, 'mul': __import__('operator').mul, 'itemgetter': __import__('operator').itemgetter}
 
     def __init__(self, repo, modname, env=None, opaque=None):
